@@ -7,12 +7,15 @@ import torch
 from mc.oracles import strings as O
 
 SIGMA = (0, 1, 2)  # 2 doubles as eos
-COSTS_QUICK = [(1.0, 1.0, 1.0), (0.5, 0.5, 0.5), (1.0, 2.0, 3.0), (0.5, 1.0, 1.0)]
+# (1, 1, 1.5) / (1, 2, 0.5): Python ints on purpose (alias spelling of the same costs); 0.7: not a dyadic rational
+COSTS_QUICK = [(1.0, 1.0, 1.0), (0.5, 0.5, 0.5), (1.0, 2.0, 3.0), (0.5, 1.0, 1.0), (0.7, 0.7, 0.7), (1, 1, 1.5)]
 COSTS_ALL = COSTS_QUICK + [
     (2.0, 1.0, 1.0),
     (1.0, 1.0, 0.5),
     (3.0, 3.0, 4.0),
     (1.0, 1.0, 2.5),
+    (0.3, 0.3, 0.3),
+    (1, 2, 0.5),
 ]
 
 
@@ -54,7 +57,7 @@ def eff_pair(pair, eos, include_eos):
     return O.effective(pair[0], eos, include_eos), O.effective(pair[1], eos, include_eos)
 
 
-def large_batch(R, H, N, seed, eos=3):
+def large_batch(R, H, N, seed, eos=3, id_offset=0):
     """Deterministic larger instance: hyp resembles ref with edits; eos in a third of the rows of each side.
     Returned tensors are OFFSET, NON-CONTIGUOUS views (a column block of a larger buffer) on purpose."""
     x = 12345 + 7919 * seed
@@ -72,8 +75,12 @@ def large_batch(R, H, N, seed, eos=3):
             r[nxt() % R] = eos
         if n % 3 == 2:
             h[nxt() % H] = eos
-        refs.append(r)
-        hyps.append(h)
+        if n == 4:
+            r[0] = eos  # an empty reference
+        if n == 5:
+            h[0] = eos  # an empty hypothesis
+        refs.append([t + id_offset for t in r])
+        hyps.append([t + id_offset for t in h])
     rb = torch.full((R + 2, N + 3), 1, dtype=torch.long)
     hb = torch.full((H + 2, N + 3), 2, dtype=torch.long)
     rb[1:R + 1, 2:N + 2] = torch.tensor(refs).t()
@@ -107,3 +114,21 @@ def global_state(name):
 
 
 GLOBAL_STATES = ("default", "float64-default", "inference-mode", "no-grad")
+
+
+BIG_ID = 2 ** 24  # token ids from here on are not exactly representable in float32 steps of 1
+
+
+def jit_variants(make_module, example):
+    """(name, callable) for the scripted and the traced module; the tracing example is deliberately unrelated to
+    the inputs the variants are evaluated on (as the repository's own trace tests do)."""
+    out = []
+    try:
+        out.append(("scripted", torch.jit.script(make_module())))
+    except Exception as e:  # noqa: BLE001
+        out.append(("scripted", e))
+    try:
+        out.append(("traced", torch.jit.trace(make_module(), example)))
+    except Exception as e:  # noqa: BLE001
+        out.append(("traced", e))
+    return out
